@@ -119,6 +119,82 @@ Record env := { e_data : val; e_scopes : list val }.
 
 Definition data_field (d : val) (x : str) : option val := get_prop d x.
 
+(* operators on evaluated operands (shared with the semantics of the emitted JavaScript,
+   Model/JsSem.v). None = outside the fragment. *)
+Definition int32 (z : Z) : bool := (Z.leb (-2147483648) z && Z.leb z 2147483647)%bool.
+
+Definition typeof_val (v : val) : str :=
+  match v with
+  | VUndef => lit "undefined"
+  | VNull | VArr _ | VObj _ => lit "object"
+  | VBool _ => lit "boolean"
+  | VNum _ => lit "number"
+  | VStr _ => lit "string"
+  | VFn _ => lit "function"
+  end.
+
+Definition un_val (op : unop) (x : val) : option val :=
+  match op with
+  | UNot => Some (VBool (negb (truthy x)))
+  | UTypeof => Some (VStr (typeof_val x))
+  | UVoid => Some VUndef
+  | UNeg => match x with VNum z => if Z.eqb z 0 then None (* -0 *) else Some (VNum (- z)) | _ => None end
+  | UPos => match x with VNum z => Some (VNum z) | _ => None end
+  | UBitNot => match x with VNum z => if int32 z then Some (VNum (- z - 1)) else None | _ => None end
+  end.
+
+(* the operators that evaluate both operands *)
+Definition bin_val (op : binop) (x y : val) : option val :=
+  match op with
+  | BEqq => option_map VBool (prim_strict_eq x y)
+  | BNeq => option_map (fun b => VBool (negb b)) (prim_strict_eq x y)
+  | BAdd =>
+      match x, y with
+      | VNum a, VNum b => if safe_int (a + b) then Some (VNum (a + b)) else None
+      | VStr a, _ =>
+          match y with
+          | VStr _ | VNum _ | VBool _ | VUndef | VNull => option_map (fun s => VStr (a ++ s)) (to_js_string y)
+          | _ => None
+          end
+      | _, VStr b =>
+          match x with
+          | VNum _ | VBool _ | VUndef | VNull => option_map (fun s => VStr (s ++ b)) (to_js_string x)
+          | _ => None
+          end
+      | _, _ => None
+      end
+  | BSub => match x, y with
+            | VNum a, VNum b => if safe_int (a - b) then Some (VNum (a - b)) else None
+            | _, _ => None
+            end
+  | BMul => match x, y with
+            | VNum a, VNum b =>
+                if safe_int (a * b)
+                then (if Z.eqb (a * b) 0 then (if (Z.ltb a 0 || Z.ltb b 0)%bool then None (* -0 *) else Some (VNum 0))
+                      else Some (VNum (a * b)))
+                else None
+            | _, _ => None
+            end
+  | BLt => match x, y with VNum a, VNum b => Some (VBool (Z.ltb a b)) | _, _ => None end
+  | BGt => match x, y with VNum a, VNum b => Some (VBool (Z.ltb b a)) | _, _ => None end
+  | BLe => match x, y with VNum a, VNum b => Some (VBool (Z.leb a b)) | _, _ => None end
+  | BGe => match x, y with VNum a, VNum b => Some (VBool (Z.leb b a)) | _, _ => None end
+  | _ => None
+  end.
+
+Definition lift2 (f : val -> val -> option val) (a b : option val) : option val :=
+  match a, b with Some x, Some y => f x y | _, _ => None end.
+
+Definition index_val (o k : option val) : option val :=
+  match o, k with
+  | Some x, Some kv => match kv with
+                       | VStr s => get_prop x s
+                       | VNum z => get_prop x (z_to_js_str z)
+                       | _ => None
+                       end
+  | _, _ => None
+  end.
+
 Section Eval.
   Variable ev : env.
 
@@ -136,45 +212,13 @@ Section Eval.
     | EObj fs => option_map VObj (eval_o fs)
     | EArr fs => option_map VArr (eval_a fs)
     | EMember o k => match eval o with Some x => get_prop x k | None => None end
-    | EIndex o k =>
-        match eval o, eval k with
-        | Some x, Some kv => match kv with
-                             | VStr s => get_prop x s
-                             | VNum z => get_prop x (z_to_js_str z)
-                             | _ => None
-                             end
-        | _, _ => None
-        end
+    | EIndex o k => index_val (eval o) (eval k)
     | ECall _ _ => None
-    | EUn UNot v => option_map (fun x => VBool (negb (truthy x))) (eval v)
-    | EUn _ _ => None
+    | EUn op v => match eval v with Some x => un_val op x | None => None end
     | EBin BLOr l r => match eval l with Some x => if truthy x then Some x else eval r | None => None end
     | EBin BLAnd l r => match eval l with Some x => if truthy x then eval r else Some x | None => None end
     | EBin BNullish l r => match eval l with Some x => if nullish x then eval r else Some x | None => None end
-    | EBin BEqq l r => match eval l, eval r with
-                       | Some x, Some y => option_map VBool (prim_strict_eq x y)
-                       | _, _ => None
-                       end
-    | EBin BNeq l r => match eval l, eval r with
-                       | Some x, Some y => option_map (fun b => VBool (negb b)) (prim_strict_eq x y)
-                       | _, _ => None
-                       end
-    | EBin BAdd l r =>
-        match eval l, eval r with
-        | Some (VNum a), Some (VNum b) => if safe_int (a + b) then Some (VNum (a + b)) else None
-        | Some (VStr a), Some y =>
-            match y with
-            | VStr _ | VNum _ | VBool _ | VUndef | VNull => option_map (fun s => VStr (a ++ s)) (to_js_string y)
-            | _ => None
-            end
-        | Some x, Some (VStr b) =>
-            match x with
-            | VNum _ | VBool _ | VUndef | VNull => option_map (fun s => VStr (s ++ b)) (to_js_string x)
-            | _ => None
-            end
-        | _, _ => None
-        end
-    | EBin _ _ _ => None
+    | EBin op l r => lift2 (bin_val op) (eval l) (eval r)
     | ECond c t f => match eval c with Some x => if truthy x then eval t else eval f | None => None end
     end
   with eval_o (l : ofields) : option (list (str * val)) :=
